@@ -223,6 +223,9 @@ func Shapes() map[string]*Flow {
 		"invoke": {Types: st(2), Params: []int{0}, Results: []int{1}, Tasks: []Task{{In: []int{0}, Out: []int{1}, Err: true}, {In: []int{1}, Invoke: "true", Err: true}}},
 		"indep3": {Types: st(3), Results: []int{0, 1, 2}, Tasks: []Task{{Out: []int{0}, Err: true}, {Out: []int{1}, Err: true}, {Out: []int{2}, Err: true}}},
 		"pthru":  {Types: st(2), Params: []int{0}, Results: []int{0, 1}, Tasks: []Task{{In: []int{0}, Out: []int{1}}}},
+		// dup3: one task consumes two results of one provider plus one of another
+		// (the generated dependency list names the first provider twice)
+		"dup3": {Types: st(4), Results: []int{3}, Tasks: []Task{{Out: []int{0, 1}, Err: true}, {Out: []int{2}, Err: true}, {In: []int{0, 1, 2}, Out: []int{3}, Err: true}}},
 	}
 }
 
@@ -283,7 +286,7 @@ func (p *Parallel) Clone() *Parallel {
 
 // ShapeNames lists the shapes in a fixed order.
 func ShapeNames() []string {
-	return []string{"single", "source", "chain2", "chain3", "fork", "join", "diamond", "multi", "invoke", "indep3", "pthru"}
+	return []string{"single", "source", "chain2", "chain3", "fork", "join", "diamond", "multi", "invoke", "indep3", "pthru", "dup3"}
 }
 
 // ---------------------------------------------------------------- listing orders
@@ -301,6 +304,57 @@ func Orders(f *Flow, max int) [][]string {
 		if max > 0 && len(res) >= max {
 			break
 		}
+	}
+	return res
+}
+
+// TaskOrders returns listing orders in which the tasks appear in every
+// permutation (all n! for n tasks), each with the non-task options in front,
+// behind, and spread between the tasks.
+func TaskOrders(f *Flow) [][]string {
+	base := DefaultOrder(f)
+	var tasks, others []string
+	for _, t := range base {
+		if strings.HasPrefix(t, "T") {
+			tasks = append(tasks, t)
+		} else {
+			others = append(others, t)
+		}
+	}
+	var res [][]string
+	seen := map[string]bool{}
+	add := func(o []string) {
+		k := strings.Join(o, ",")
+		if !seen[k] {
+			seen[k] = true
+			res = append(res, o)
+		}
+	}
+	for _, p := range permutations(len(tasks)) {
+		pt := make([]string, len(tasks))
+		for i, j := range p {
+			pt[i] = tasks[j]
+		}
+		add(append(append([]string{}, others...), pt...))
+		add(append(append([]string{}, pt...), others...))
+		// spread: one option after each task, the rest in front
+		var sp []string
+		rest := append([]string{}, others...)
+		for i := len(pt) - 1; i >= 0 && len(rest) > 0; i-- {
+			_ = i
+		}
+		k := 0
+		for _, t := range pt {
+			sp = append(sp, t)
+			if k < len(rest) {
+				sp = append(sp, rest[len(rest)-1-k])
+				k++
+			}
+		}
+		for ; k < len(rest); k++ {
+			sp = append([]string{rest[len(rest)-1-k]}, sp...)
+		}
+		add(sp)
 	}
 	return res
 }
